@@ -6,8 +6,9 @@ CONSTANTS Keys = {1, 2, 3, 4}
           IsSet = FALSE
           None <- NoneZero
           Rej = FALSE
+          Nones = {0, 3}
           EK = 0
 VIEW View
 INVARIANTS Bounded NoDup DomOK SetOK RefuseOK
-PROPERTIES FirstAtHead LastAtTail PlainAppends PlainKeeps UpdateKeepsKeys OthersKeepOrder EvictOpposite NoOverNeverEvicts SortPermutes RemoveExact PutThenGet LRUMoves
+PROPERTIES FirstAtHead LastAtTail PlainAppends PlainKeeps UpdateKeepsKeys OthersKeepOrder EvictOpposite NoOverNeverEvicts SortPermutes RemoveExact PutThenGet LRUMoves NoneIsInert
 CHECK_DEADLOCK FALSE
